@@ -523,6 +523,10 @@ def gen_scenarios(rng, tier):
                     c["up"] = []
                     if not c["down"]:
                         c["down"] = [5, 0, 1000]
+        # both directions busy at the same moment for a long time: 3 MiB each way in 32 KiB writes (a buffer shared by the two
+        # copiers of a leg, a frame interleaved into the other direction, all show as a differing byte)
+        conns.insert(1, {"up": [32768] * 96, "down": [32768] * 96, "rbuf_up": [32768], "rbuf_down": [65536], "closer": "client" if i % 2 else "upstream",
+                         "mode": "full", "seed": 900 + i})
         if x in ("agent", "clientfwd"):
             # the service behind the exit does not close when it sees end-of-stream (a publisher that never reads): the client
             # closed the tunnel, so the leg to the service has to be released all the same
@@ -547,12 +551,16 @@ def monitor_scenario(sc, so):
         return {"sig": "tunnel-panic", "why": "scenario %s: %s" % (sc["id"], so["panic"])}
     for i, (spec, co) in enumerate(zip(sc["conns"], so["conns"])):
         where = "scenario %s connection %d (%s closes, %s)" % (sc["id"], i, spec["closer"], spec["mode"])
-        if co["got_up"] != co["sent_up"]:
-            return {"sig": "tunnel-stream", "why": "%s: client->upstream stream differs: %d of %d bytes%s" % (
-                where, len(co["got_up"]) // 2, len(co["sent_up"]) // 2, "" if co["sent_up"].startswith(co["got_up"]) else " and not a prefix")}
-        if co["got_down"] != co["sent_down"]:
-            return {"sig": "tunnel-stream", "why": "%s: upstream->client stream differs: %d of %d bytes%s" % (
-                where, len(co["got_down"]) // 2, len(co["sent_down"]) // 2, "" if co["sent_down"].startswith(co["got_down"]) else " and not a prefix")}
+        for dirn, gk, sk in (("client->upstream", "got_up", "sent_up"), ("upstream->client", "got_down", "sent_down")):
+            if co[sk].startswith("big:") or co[gk].startswith("big:"):
+                # fingerprints of streams above 256 KiB: big:<length>:<sha256 prefix>:<first differing offset>
+                g, s_ = co[gk].split(":"), co[sk].split(":")
+                if g[1:3] != s_[1:3]:
+                    return {"sig": "tunnel-stream", "why": "%s: %s stream differs: %s of %s bytes arrived, first differing byte at offset %s" % (where, dirn, g[1], s_[1], g[3])}
+                continue
+            if co[gk] != co[sk]:
+                return {"sig": "tunnel-stream", "why": "%s: %s stream differs: %d of %d bytes%s" % (
+                    where, dirn, len(co[gk]) // 2, len(co[sk]) // 2, "" if co[sk].startswith(co[gk]) else " and not a prefix")}
         if co["error"]:
             return {"sig": "tunnel-error", "why": "%s: %s" % (where, co["error"])}
         if co["zero_reads"]:
@@ -719,7 +727,7 @@ def run(ctx):
     else:
         for sc, so in zip(scenarios, tun["outs"]):
             tstats["connections"] += len(so["conns"])
-            tstats["bytes"] += sum(len(co["got_up"]) // 2 + len(co["got_down"]) // 2 for co in so["conns"])
+            tstats["bytes"] += sum((int(co[k].split(":")[1]) if co[k].startswith("big:") else len(co[k]) // 2) for co in so["conns"] for k in ("got_up", "got_down"))
             f = monitor_scenario(sc, so)
             if f:
                 tun_fail.append((sc, so, f))
